@@ -96,6 +96,34 @@ static void run_crash(const Case &c) {
     } else vp::cls(v == PERSISTENT_ACCESS_SUCCESS ? "torn-cut-validates" : "cut-detected-invalid");
 }
 
+// mode 2: a full store onto a medium that acknowledges every write in full but, at one write call, keeps something else (fault kinds 30: one bit
+// does not take, 31: only the first half of the block is programmed). Nobody reports an error. What a fresh instance validates afterwards is the
+// previous image or the new one - never a blend that merely happens to carry a matching checksum because the checksum was derived from it.
+static void run_silent(const Case &c) {
+    g_cur = c;
+    Bytes oldimg, newpart; images(c, oldimg, newpart);
+    install(c.cfg, oldimg);
+    {
+        Instance in(c.cfg);
+        M().clear_run();
+        if (persistent_validate(&in.st) != PERSISTENT_ACCESS_SUCCESS) { F(c, "harness:previous-image-invalid", "the installed previous image does not validate"); return; }
+        M().clear_run();
+        M().fault_at = c.point; M().fault_kind = c.fkind;
+        if (VP_BUDGET(64 + 8 * c.cfg.size)) { (void)persistent_store(&in.st, newpart.data()); vp::budget().armed = false; } else { F(c, "no-progress", "store keeps calling the medium"); return; }
+    }
+    vp::count();
+    if (!M().silent_applied) { vp::stats().dontcare++; return; }
+    Instance in2(c.cfg);
+    M().clear_run();
+    PersistentAccess v = persistent_validate(&in2.st);
+    if (v != PERSISTENT_ACCESS_SUCCESS) { vp::cls("silently-altered-write-detected-invalid"); return; }
+    vp::Block out(c.cfg.size);
+    if (persistent_fetch(out.p, &in2.st) != PERSISTENT_ACCESS_SUCCESS) { F(c, "fetch-after-silent-fault", "fetch fails on a healthy medium"); return; }
+    bool isold = memcmp(out.p, oldimg.data(), c.cfg.size) == 0, isnew = memcmp(out.p, newpart.data(), c.cfg.size) == 0;
+    if (!isold && !isnew) { F(c, "silently-altered-image-validates", vp::fmt("the medium kept %s at write call %ld of a full store; afterwards a fresh instance validates an image that is neither the previous nor the new one", c.fkind == 30 ? "one bit of the block unchanged" : "only the first half of the block", c.point)); return; }
+    vp::cls("silently-altered-write-harmless");
+}
+
 static void run_fault(const Case &c) {
     g_cur = c;
     Bytes oldimg, newpart; images(c, oldimg, newpart);
@@ -163,6 +191,15 @@ static void run_config(const Config &cfg, uint64_t seed, bool thorough) {
         }
         vp::cls("crash-points", points.size());
     }
+    // a medium that silently keeps something else than it acknowledged, at every call of a full store
+    {
+        Case c{cfg, seed, 2, 0, 0, cfg.size, 0, 0};
+        size_t octets, calls; std::vector<size_t> bounds;
+        if (clean_run(c, octets, calls, bounds)) {
+            for (long k = 0; k < (long)calls && k < 48; k++) for (int kind : {30, 31}) { c.point = k; c.fkind = kind; run_silent(c); vp::nontrivial(vp::fnv(serc(c))); }
+            vp::cls("silent-retention-points", std::min<size_t>(calls, 48) * 2);
+        }
+    }
     // faults in every operation
     std::vector<std::array<size_t, 3>> fops = {{0, 0, cfg.size}, {2, 0, 0}, {3, 0, 0}, {5, 0, 0}};
     if (cfg.size >= 2) { fops.push_back({1, 1, cfg.size - 1}); fops.push_back({1, 0, 1}); fops.push_back({4, 1, cfg.size - 1}); }
@@ -190,7 +227,7 @@ static void run() {
     size_t maxsize = a.thorough() ? 32 : 16;
     vp::stats().rule = vp::fmt("fault enumeration (images: random, zero from the first third on, or padded with 00/ff from the middle on): data size 1..%zu x placement {0,5} x 3 checksums x aux {none,0,1,2,size-1,size+1} ; per configuration every crash point (total octets the medium accepts before "
                                "the cut, i.e. every whole-write prefix and every torn position) of the full store and of partial stores, followed by validate+fetch on a fresh instance; and a single "
-                               "failing / short (n-1, 1, n-2^16, n-2^8) / over-long (n+1, (size_t)-EIO) medium call (also from a re-entrant driver that validates a mirror record through the library before it answers) at every call index (sampled for operations with more than 64 medium calls); of store, store_part, validate, fetch, fetch_part, reset, on an instance that validated the previous image before and validates again afterwards; plus data sizes 255..257, 65535..65537, 70000 with sampled crash points", maxsize);
+                               "failing / short (n-1, 1, n-2^16, n-2^8) / over-long (n+1, (size_t)-EIO) medium call (also from a re-entrant driver that validates a mirror record through the library before it answers) at every call index (sampled for operations with more than 64 medium calls); of store, store_part, validate, fetch, fetch_part, reset, on an instance that validated the previous image before and validates again afterwards; a full store onto a medium that acknowledges every write but keeps one bit unchanged / only the first half of the block at one write call, followed by validate+fetch on a fresh instance; plus data sizes 255..257, 65535..65537, 70000 with sampled crash points", maxsize);
     vp::stats().exhaustive = true;
     uint64_t idx = 0;
     for (size_t size = 1; size <= maxsize; size++)
@@ -223,7 +260,7 @@ static bool replay(const std::string &text) {
     c.seed = strtoull(w[7].c_str(), 0, 10); c.mode = atoi(w[9].c_str()); c.op = atoi(w[11].c_str()); c.off = strtoull(w[12].c_str(), 0, 10); c.len = strtoull(w[13].c_str(), 0, 10);
     c.point = atol(w[15].c_str()); c.fkind = atoi(w[17].c_str());
     vp::CaseScope scope([] { return serc(g_cur); });
-    if (c.mode == 0) run_crash(c); else run_fault(c);
+    if (c.mode == 0) run_crash(c); else if (c.mode == 2) run_silent(c); else run_fault(c);
     return vp::stats().failures.empty();
 }
 VP_MAIN(run, replay)
